@@ -266,6 +266,13 @@ def dstep (d : DState) : List String → DState × String
       | some p => (d, fmtPort p)
       | none => (d, "ok none")
     | _, _ => (d, "bad-op")
+  | ["firstread", id] =>
+    match d.st, unhex id with
+    | some st, some id =>
+      match st.hub.ports id with
+      | some p => (d, "ok " ++ fmtPVal (firstRead (mkCfg d) p))
+      | none => (d, "ok none")
+    | _, _ => (d, "bad-op")
   | ["writes", id] =>
     match d.st, unhex id with
     | some st, some id => (d, "ok " ++ " ".intercalate ((st.writes id).map fmtPVal))
